@@ -1,0 +1,25 @@
+//go:build verif
+
+package node
+
+import (
+	"gitlab.com/aquachain/aquachain/common/log"
+	"gitlab.com/aquachain/aquachain/internal/debug"
+	"gitlab.com/aquachain/aquachain/rpc"
+)
+
+// APIsForSim returns every API the running node offers to its RPC endpoints
+// (the node's own plus those of its services), before any per-transport
+// filtering.  Simulation harness only.
+func (n *Node) APIsForSim() []rpc.API {
+	n.lock.RLock()
+	defer n.lock.RUnlock()
+	return append([]rpc.API(nil), n.rpcAPIs...)
+}
+
+// SetupLoggingForSim installs the global glog handler the way the command line
+// entry point does (debug.Setup), so that debug_verbosity / debug_vmodule have a
+// handler to act on.  Verbosity: errors only.
+func SetupLoggingForSim() {
+	debug.SetGlogger(debug.Initglogger(false, int64(log.LvlError), false, false))
+}
